@@ -232,15 +232,29 @@ def tlc_generate(module, cfg, name, workers=12, timeout=3600, heap="12g"):
         st = json.load(open(statp))
         st["cached"] = True
         return st
-    shutil.rmtree(d, ignore_errors=True)
-    os.makedirs(d)
-    st = tlc(module, cfg, out, workers=workers, timeout=timeout, heap=heap)
+    # generate into a private directory, then publish atomically (several checks may want the same run at once)
+    os.makedirs(GENCACHE, exist_ok=True)
+    tmp = d + ".tmp%d" % os.getpid()
+    shutil.rmtree(tmp, ignore_errors=True)
+    os.makedirs(tmp)
+    st = tlc(module, cfg, os.path.join(tmp, "out.txt"), workers=workers, timeout=timeout, heap=heap)
+    st["cached"] = False
     if st["violated"] or not st["completed"]:
         # a generation run whose invariants fail is a verdict about the specification itself
-        st["cached"] = False
         return st
-    st["cached"] = False
-    json.dump(st, open(statp, "w"))
+    st["out"] = out
+    json.dump(st, open(os.path.join(tmp, "stats.json"), "w"))
+    try:
+        if os.path.exists(d) and not os.path.exists(statp):
+            shutil.rmtree(d, ignore_errors=True)          # debris of an interrupted run
+        if os.path.exists(d):
+            shutil.rmtree(tmp, ignore_errors=True)
+        else:
+            os.rename(tmp, d)
+    except OSError:
+        shutil.rmtree(tmp, ignore_errors=True)
+    if not os.path.exists(statp):
+        raise ToolError("could not publish the generation run " + d)
     return st
 
 
